@@ -198,6 +198,9 @@ func pvIsSharedType(fileDir string, imports map[string]string, e ast.Expr) bool 
 }
 
 func (g *gen) pkgVars() {
+	// always defined, also when a file does not parse: a generator that defines nothing is charged to every property
+	g.p("(* the package-level state of the sources is in Generated/PkgState.v *)\n")
+	g.p("Definition pkg_state_generated : bool := true.\n")
 	var files []pvFile
 	fset := token.NewFileSet()
 	filepath.Walk(g.repo, func(path string, info os.FileInfo, err error) error {
@@ -699,8 +702,6 @@ func (g *gen) pkgVars() {
 			}
 		}
 	}
-	g.p("(* the package-level state of the sources is in Generated/PkgState.v *)\n")
-	g.p("Definition pkg_state_generated : bool := true.\n")
 	g.js["pkg_vars"] = vars
 	g.js["pkg_var_writes"] = sites
 	g.js["pkg_var_methods"] = methods
